@@ -207,10 +207,41 @@ theorem overlay_frame (self other r : Series) (hI : Inv self) (h : self.overlayC
     Inv r ∧ Trimmed r ∧ ∀ t v, t ∉ other.spanSerials → r.abs t v = self.abs t v :=
   overlayCore_frame self other r hI h
 
-/- hstack: NOT proved as an equation on `abs` (target: `abs (hstack [a, b]) t v = if v < a.nv then abs a t v else
-   abs b t (v - a.nv)`). Proved: `step_inv` (well-formed result). Missing: indexing into the flattened rows of the
-   blocks (`List.flatten` with per-block widths); the write-back through `set_data` is the same `writeAll_span` lemma
-   that closes overlay. Covered by the differential run and the dict oracle. -/
+/-- **hstack of two series** (`x.hstack(y)`, `x & y`): the result has `nv₁ + nv₂` variants; variant `v < nv₁` reads `self`,
+variant `v ≥ nv₁` reads `other` at `v - nv₁` — at every period: inside the encompassing span by the block arithmetic, outside
+it because both operands are missing there; the result is well-formed (and trimmed, by `write_refines_map`) -/
+theorem hstack_pointwise (f : Freq) (a b r : Series) (ha : Inv a) (hb : Inv b) (h : hstack f [a, b] = .ok r) (t : Int) (v : Nat) :
+    r.nv = a.nv + b.nv ∧ r.abs t v = if v < a.nv then a.abs t v else b.abs t (v - a.nv) :=
+  abs_hstack2 f a b r ha hb h t v
+
+/-- the same through the frequency check of `hstackS` (what `step` runs) -/
+theorem hstackS_pointwise (a b r : Series) (ha : Inv a) (hb : Inv b) (h : hstackS [a, b] = .ok r) (t : Int) (v : Nat) :
+    r.nv = a.nv + b.nv ∧ r.abs t v = if v < a.nv then a.abs t v else b.abs t (v - a.nv) := by
+  simp only [hstackS] at h
+  split at h
+  · exact abs_hstack2 _ a b r ha hb h t v
+  · split at h
+    · exact abs_hstack2 _ a b r ha hb h t v
+    · cases h
+
+/- hstack of three or more series: not stated separately (the model is list-general, `step_inv` covers it; the equation
+   above is for the binary case the statement of the property speaks about, `x & y & z` being `(x & y) & z` in the code). -/
+
+/-- **overlay with variant broadcasting** (n vs n, 1 vs n, n vs 1; the code broadcasts `self` in place and a *copy* of
+`other`): for `v` below the broadcast number of variants, inside `other`'s span the result reads `other` at `bidx other.nv v`,
+outside it reads `self` at `bidx self.nv v` -/
+theorem overlay_by_span_broadcast (self other r : Series) (nv : Nat) (hI : Inv self) (hO : Inv other)
+    (hbc : bcastNv self.nv other.nv = some nv) (h : self.overlay other = .ok r) (t : Int) (v : Nat) (hv : v < nv) :
+    (InSpan other t → r.abs t v = other.abs t (bidx other.nv v)) ∧
+    (¬ InSpan other t → r.abs t v = self.abs t (bidx self.nv v)) :=
+  abs_overlay_bcast self other r nv hI hO hbc h t v hv
+
+/-- **underlay with variant broadcasting** -/
+theorem underlay_by_span_broadcast (self other r : Series) (nv : Nat) (hI : Inv self) (hO : Inv other)
+    (hbc : bcastNv self.nv other.nv = some nv) (h : self.underlay other = .ok r) (t : Int) (v : Nat) (hv : v < nv) :
+    (InSpan self t → r.abs t v = self.abs t (bidx self.nv v)) ∧
+    (¬ InSpan self t → r.abs t v = other.abs t (bidx other.nv v)) :=
+  abs_underlay_bcast self other r nv hI hO hbc h t v hv
 
 /-- **Alignment with variant broadcasting** (numpy's rule: equal numbers of variants, or a single variant paired with
 every variant of the other operand): `bidx nv v = if nv = 1 then 0 else v` -/
@@ -260,17 +291,8 @@ theorem replace_where_pointwise (tf : TestFn) (new : Cell) (s : Series) (hI : In
     (¬ InSpan s t → (s.replaceWhere tf new).abs t v = none) ∧ Trimmed (s.replaceWhere tf new) :=
   abs_replaceWhere tf new s hI t v
 
-/- fill_missing, full statement (NOT proved at the level of `abs`):
-     theorem fill_missing_rule (s r) (Inv s) (s.fillMissingP m (own span) = .ok r) :
-       ∀ t v, InSpan s t → v < nv → r.abs t v = match s.abs t v with | some x => some x | none => <value of the closest
-         observed period after / before / nearest (ties: before) / linear in the position between both / the constant>
-   Proved below, for every column (= one variant read over the requested span, in the order of the dates): observed cells
-   are never touched, a missing cell receives exactly `fillAt`, and `fillAt` reads the closest observed index at or after
-   (`next`) / at or before (`previous`) the cell with only missing cells in between; `nearest` and `linear` are defined from
-   these two indices. Missing: composing this with the read (`read_is_abs`) and the write-back of the filled columns
-   (`write_refines_map` + `writeAll_span`) through the period wrappers; the result is well-formed by `step_inv`. The
-   differential run and the dict oracle (which states the rule on periods) cover the composition. -/
-theorem fill_missing_partial (m : FillMethod) (col : List Cell) :
+/-- fill_missing, column level (used by `fill_missing_pointwise` below) -/
+theorem fill_missing_columns (m : FillMethod) (col : List Cell) :
     (fillColumn m col).length = col.length ∧
     (∀ i x, colAt col i = some x → colAt (fillColumn m col) i = some x) ∧
     (∀ i, i < col.length → colAt col i = none → colAt (fillColumn m col) i = fillAt m col i) ∧
@@ -310,6 +332,79 @@ theorem extrapolate_empty (s : Series) (coeffs : List Rat) (c : Rat) (serials : 
 correspondence lines; `decide` cannot evaluate `Rat` arithmetic in the kernel) -/
 example : (⟨.Q, some 8080, 1, [[some 1], [none], [some 2]]⟩ : Series).extrapolate [0, 1] 0 [8083, 8084]
     = .ok ⟨.Q, some 8080, 1, [[some 1], [none], [some 2]]⟩ := by decide
+
+/-- **fill_missing on `abs`** (a span of `n ≥ 1` consecutive periods starting at `a`, any method): nothing outside the span
+changes; inside it an observed cell is kept and a missing cell at `t` receives `fillAt method col (t - a)`, where `col` is the
+column `abs s a v, …, abs s (a+n-1) v` (`spanCol`). The rules below spell `fillAt` out on periods. -/
+theorem fill_missing_pointwise (s r : Series) (m : FillMethod) (a : Int) (n : Nat) (hn : 1 ≤ n) (hI : Inv s)
+    (st : Int) (hs : s.start = some st)
+    (h : s.fillMissingP m ((spanList a n).map (fun x => (⟨s.freq, x⟩ : Period))) = .ok r) (t : Int) (v : Nat) :
+    (¬ (a ≤ t ∧ t < a + (n : Int)) → r.abs t v = s.abs t v) ∧
+    (a ≤ t → t < a + (n : Int) → v < s.nv →
+      r.abs t v = match s.abs t v with
+        | some x => some x
+        | none => fillAt m (spanCol s a n v) (t - a).toNat) :=
+  abs_fillMissing s r m a n hn hI st hs h t v
+
+/-- `constant`: a missing cell of the span receives the constant -/
+theorem fill_rule_constant (c : Cell) (col : List Cell) (i : Nat) : fillAt (.constant c) col i = c := rfl
+
+/-- `next`: a missing cell at `a+i` takes the value of the first observed period at or after it inside the span (only missing
+cells in between) and stays missing when there is none -/
+theorem fill_rule_next (s : Series) (a : Int) (n v i : Nat) (hi : i < n) :
+    (fillAt .next (spanCol s a n v) i = none ∧ ∀ j, i ≤ j → j < n → s.abs (a + (j : Int)) v = none) ∨
+    ∃ j, i ≤ j ∧ j < n ∧ s.abs (a + (j : Int)) v ≠ none ∧ (∀ j', i ≤ j' → j' < j → s.abs (a + (j' : Int)) v = none) ∧
+      fillAt .next (spanCol s a n v) i = s.abs (a + (j : Int)) v :=
+  fillAt_next s a n v i hi
+
+/-- `previous`: the last observed period at or before it inside the span -/
+theorem fill_rule_previous (s : Series) (a : Int) (n v i : Nat) (hi : i < n) :
+    (fillAt .previous (spanCol s a n v) i = none ∧ ∀ j, j ≤ i → s.abs (a + (j : Int)) v = none) ∨
+    ∃ j, j ≤ i ∧ s.abs (a + (j : Int)) v ≠ none ∧ (∀ j', j < j' → j' ≤ i → s.abs (a + (j' : Int)) v = none) ∧
+      fillAt .previous (spanCol s a n v) i = s.abs (a + (j : Int)) v :=
+  fillAt_previous s a n v i hi
+
+/-- `nearest` and `linear` in terms of the two neighbours `p = prevObs`, `q = nextObs` (characterised by the two rules above):
+nearest takes `p` when `i - p ≤ q - i` (ties go back) and the only neighbour at the ends; linear is
+`x_p + (x_q - x_p)·(i - p)/(q - p)` between two neighbours and flat beyond the outer observations -/
+theorem fill_rule_nearest_linear (col : List Cell) (i p q : Nat) (hp : prevObs col i = some p) (hq : nextObs col i = some q) :
+    fillAt .nearest col i = (if i - p ≤ q - i then colAt col p else colAt col q) ∧
+    fillAt .linear col i = (match colAt col p, colAt col q with
+      | some x, some y => some (x + (y - x) * (((i : Rat) - (p : Rat)) / ((q : Rat) - (p : Rat))))
+      | _, _ => none) := by
+  constructor
+  · simp [fillAt, hp, hq]
+  · simp only [fillAt, hp, hq]
+    cases colAt col p <;> cases colAt col q <;> rfl
+
+theorem fill_rule_one_sided (col : List Cell) (i : Nat) :
+    (∀ p, prevObs col i = some p → nextObs col i = none →
+      fillAt .nearest col i = colAt col p ∧ fillAt .linear col i = colAt col p) ∧
+    (∀ q, prevObs col i = none → nextObs col i = some q →
+      fillAt .nearest col i = colAt col q ∧ fillAt .linear col i = colAt col q) := by
+  constructor
+  · intro p hp hq; simp [fillAt, hp, hq]
+  · intro q hp hq; simp [fillAt, hp, hq]
+
+/-! ## 5c. NaN rules of the statistics (what `StatFn.eval` in `stat_pointwise` does with missing cells) -/
+
+/-- the `nan*` statistics are the plain ones over the observed variants of the period -/
+theorem stat_nan_rules (r : List Cell) :
+    StatFn.nansum.eval r = some (sumQ (obsVals r)) ∧ StatFn.nanprod.eval r = some (prodQ (obsVals r)) ∧
+    StatFn.nanmean.eval r = meanQ (obsVals r) ∧ StatFn.nanmin.eval r = minQ (obsVals r) ∧
+    StatFn.nanmax.eval r = maxQ (obsVals r) := ⟨rfl, rfl, rfl, rfl, rfl⟩
+
+/-- a period without any observation: `nansum` is 0, `nanprod` is 1, `nanmean`, `nanmin`, `nanmax` are missing -/
+theorem stat_nan_all_missing (r : List Cell) (h : ∀ c ∈ r, c = none) :
+    StatFn.nansum.eval r = some 0 ∧ StatFn.nanprod.eval r = some 1 ∧ StatFn.nanmean.eval r = none ∧
+    StatFn.nanmin.eval r = none ∧ StatFn.nanmax.eval r = none := by
+  simp [StatFn.eval, obsVals_nil_of_all_none r h, sumQ, prodQ, meanQ, minQ, maxQ]
+
+/-- the plain statistics propagate a missing cell -/
+theorem stat_plain_strict (r : List Cell) (h : none ∈ r) :
+    StatFn.sum.eval r = none ∧ StatFn.prod.eval r = none ∧ StatFn.mean.eval r = none ∧
+    StatFn.min.eval r = none ∧ StatFn.max.eval r = none := by
+  simp [StatFn.eval, strictVals_none_of_mem r h]
 
 /-! ## 6. Every operation keeps the invariant; arbitrary op sequences -/
 
@@ -482,5 +577,31 @@ theorem reachable_covers (ops : List Op) (n : Nat) (p' : Pool) (h : run (List.re
     rw [List.mem_replicate] at hy
     rw [hy.2]; exact inv_new _ _) h x hx
   exact ⟨fun t v => covers x t v, hi.2, hi.1⟩
+
+/-! ## 7. The refinement statement in one place -/
+
+/-- **Every operation refines the map.** The conjunction of the `abs`-level equations proved above, per op kind of `step`:
+* `set` / `x[dates, variants] = data`, `call`, `init` — `write_refines_map` (+ frame, scalar closed form), `read_is_abs` (`get`),
+  `slice_is_abs` (`gfu`)
+* `shift`, `fshift`, `idx` — `shift_moves_abs`;  `clip` — `clip_restricts`;  `trim` — `trim_preserves_abs` + `trim_establishes_trimmed`
+* `overlay`, `foverlay`, `underlay`, `funderlay` — `overlay_by_span_broadcast`, `underlay_by_span_broadcast`
+* `hstack` — `hstackS_pointwise`
+* `bin`, `cmp` — `binop_pointwise_broadcast`;  `sc`, `rsc` — `apply_pointwise`;  `un` — `unary_pointwise`
+* `stat`, `mstat` — `stat_pointwise`;  `mov`, `mmov` — `moving_window_pointwise`
+* `fill`, `mfill` — `fill_missing_pointwise`;  `rw` — `replace_where_pointwise`;  `extrap`, `mextrap` — `extrapolate_pointwise`
+* every op, every sequence — `step_inv`, `reachable_inv`, `covers`
+(`new`, `empty`, `copy` are the empty map, the empty map with the start kept, and the identity, by definition.) -/
+theorem op_refines_map : type_of% (And.intro @write_refines_map (And.intro @read_is_abs (And.intro @slice_is_abs
+    (And.intro @shift_moves_abs (And.intro @clip_restricts (And.intro @trim_preserves_abs (And.intro @overlay_by_span_broadcast
+    (And.intro @underlay_by_span_broadcast (And.intro @hstackS_pointwise (And.intro @binop_pointwise_broadcast
+    (And.intro @apply_pointwise (And.intro @unary_pointwise (And.intro @stat_pointwise (And.intro @moving_window_pointwise
+    (And.intro @fill_missing_pointwise (And.intro @replace_where_pointwise (And.intro @extrapolate_pointwise
+    (And.intro @step_inv (And.intro @reachable_inv @covers))))))))))))))))))) :=
+  And.intro @write_refines_map (And.intro @read_is_abs (And.intro @slice_is_abs
+    (And.intro @shift_moves_abs (And.intro @clip_restricts (And.intro @trim_preserves_abs (And.intro @overlay_by_span_broadcast
+    (And.intro @underlay_by_span_broadcast (And.intro @hstackS_pointwise (And.intro @binop_pointwise_broadcast
+    (And.intro @apply_pointwise (And.intro @unary_pointwise (And.intro @stat_pointwise (And.intro @moving_window_pointwise
+    (And.intro @fill_missing_pointwise (And.intro @replace_where_pointwise (And.intro @extrapolate_pointwise
+    (And.intro @step_inv (And.intro @reachable_inv @covers))))))))))))))))))
 
 end IrisVerif.C10
